@@ -18,7 +18,7 @@ def units(tier, seed):
     for n, m in t:
         us.append({'name': f'Lattice per table {n}x{m}', 'fn': 'unit_table', 'args': {'n': n, 'm': m},
                    'split': 7 if n * m >= 8 else 0})
-    us += _mk.inductive_units(tier) + _mk.skeleton_units(tier, seed)
+    us += _mk.inductive_units(tier) + _mk.skeleton_kernel_units(tier, seed) + _mk.skeleton_units(tier, seed)
     return _mk.order(us)
 
 
